@@ -668,6 +668,18 @@ struct Round {
     }
 };
 
+// run f as a one-thread round: main-thread epilogues (final reads, no-op modifies, destructors) get the same hang
+// detection as the round itself (serial: step budget; stress: watchdog)
+template<class F>
+inline void run_checked(long idx, F&& f)
+{
+    Round e(idx);
+    e.spawn(std::forward<F>(f));
+    long keep = res.rounds_done;
+    e.run();
+    res.rounds_done = keep;
+}
+
 inline bool want_round(long r) { return cfg.only_round < 0 || cfg.only_round == r; }
 
 // ------------------------------------------------------------------ payload with access-window monitor
